@@ -198,7 +198,7 @@ prop(
         st("checked"),
         st("release"),
         st("tsan", name="tsan", args=["--sub", "concurrent", "--scale", "0.25"], env=TSAN_ENV, canary="tsan", death_is_violation=True, shards=8),
-        st("miri", name="miri", args=[], env={"MIRIFLAGS": "-Zmiri-disable-isolation -Zmiri-seed={shard}", "JBV_MIRI": "1"}, canary="miri", death_is_violation=True, shards=4, timeout_s=3 * 3600),
+        st("miri", name="miri", args=[], env={"MIRIFLAGS": "-Zmiri-disable-isolation -Zmiri-deterministic-floats -Zmiri-seed={shard}", "JBV_MIRI": "1"}, canary="miri", death_is_violation=True, shards=4, timeout_s=3 * 3600),
     ],
     ["TSan only understands synchronisation it intercepts; std is rebuilt with -Zbuild-std so the regex cache pool's primitives are instrumented", "Miri runs a tiny generated voice (1 state, 3 coefficients, frame period 4), not the bundled one"],
 )
